@@ -109,7 +109,9 @@ PROP = dict(
               "sample][2 frames of traffic], traffic = noise 40 / 20 dB below the preamble power, preamble absent / ending on the last "
               "sample before the gap / ending mid-frame before the gap / starting on the first sample after the gap, every preamble, 3 "
               "amplitudes, 4 thresholds, 1 and 2 frames per call; in the silence variant of the preamble streams every frame without "
-              "preamble samples is exactly zero; SCALE: detector.refscale - every preamble handed to the constructor as c*h, c in {1e-3, "
+              "preamble samples is exactly zero; FIRST SAMPLES: detector.first - the preamble on samples 0..nh-1 (no lead-in) of the stream "
+              "of a fresh detector and right after reset() following a preamble stream / noise traffic, every preamble, silence / floor, 3 "
+              "amplitudes, the thresholds, 1 and 2 frames per call: detection in call 0 at offset nh-1; SCALE: detector.refscale - every preamble handed to the constructor as c*h, c in {1e-3, "
               "0.1, sqrt 2 (the +-1+-j QPSK mapping), 10, 1e3}, stream carrying c*h / the unit-scale h / no preamble, end offsets "
               "{0, nh/2, nh-1, frame_len-1}, silence / floor, thresholds 0.5 and 0.9, 1 and 2 frames per call; peakloc(real): every "
               "case of the grid repeated with the data times 2^k, k in {-1000,-300,-60,-50,-40,40,300,1000}, location bit-identical "
